@@ -14,6 +14,15 @@ from . import ctlgen, pipedrv, z80len
 PROBE_UNEXECUTED_ENTRY = {'mem': [0xAF, 0x28, 0x04, 0xC3, 0x0A, 0x80, 0x00, 0xC3, 0x0B, 0x80, 0x01, 0x21, 0x00, 0x40, 0x18, 0xFE],
                           'org': 32768, 'map': [32768, 32769, 32775, 32779, 32782]}
 
+# Open finding out:terminator:U-directive-beyond-end, smallest form: XOR A / JP NZ,32774 (never taken) / JR $ and, never executed, at
+# 32774 a JP whose operand runs over the end address 32776: 'U 32777' is written after 'i 32776'.
+PROBE_U_BEYOND_END = {'mem': [0xAF, 0xC2, 0x06, 0x80, 0x18, 0xFE, 0xC3, 0xC9], 'org': 32768, 'map': [32768, 32769, 32772]}
+# Open finding out:overlap-warning:rst-argument-walk:directive-inside-executed-jump, smallest form: RST 8 / DEFB 24 / JP 32770 with -r
+# (RSTHandlerConfig 8:B): the code map block ends after the RST opcode, the search for the end of the routine starts AT the argument,
+# reads it as JR and puts 'c 32771' inside the JP.
+PROBE_RST_ARG_WALK = {'mem': [0xCF, 0x18, 0xC3, 0x02, 0x80], 'org': 32768, 'map': [32768, 32770], 'args': ['-r'], 'prog': {8: 1},
+                      'sites': [(0, [0x18])]}
+
 OPC = {(1, 0): [0x00], (1, 1): [0xC9], (2, 0): [0x3E, 0x01], (2, 1): [0x18, 0x00], (3, 0): [0x21, 0x34, 0x12], (3, 1): [0xC3, 0x00, 0x00]}
 
 
@@ -295,7 +304,9 @@ def out_cases(args):
             mapf = os.path.join(sub, 'm%d.map' % k)
             write_map(mapf, fmt, mapaddrs)
             args_ += ['-m', mapf]
-        if kind != 'probe':
+        if kind == 'probe':
+            args_ += fx.get('args', [])
+        else:
             if rnd.random() < 0.3:
                 args_.append('-h' if rnd.random() < 0.6 else '-l')
             if rnd.random() < 0.3 or kind == 'sweep':
@@ -307,16 +318,286 @@ def out_cases(args):
                 if rnd.random() < 0.3:
                     args_ += ['-I', '%s=%s' % (name, rnd.choice(vals))]
         out.append(drive_out(sub, k, binf, args_, strict, start, end, mapaddrs, fmt, full, kind, org, mem))
+        if kind == 'probe' and 'sites' in fx:
+            rst_stats(out[-1], fx['sites'], fx['prog'])
     return out
 
 
-def drive_out(sub, k, binf, args_, strict, start, end, mapaddrs, mapfmt, full, kind, org, mem):
+# ---------------------------------------------------------------- RST n with inline arguments (sna2ctl -r)
+# sna2ctl -r / --handle-rst: "Handle RST instruction arguments".  Which RST takes what is the RSTHandlerConfig parameter of the
+# [skoolkit] section of skoolkit.ini (components.rst): a comma-separated list of addr:B (one byte follows the RST) or addr:W (one
+# word follows), addr in 0, 8 .. 56; default 8:B.  The arguments are written as B/W sub-blocks of the code block.
+#
+# Bytes that are an opcode of a jump/return (or the first half of one) when read as an instruction: an argument with such a
+# value looks like the end of a routine to any step that does not skip the arguments.
+ENDLIKE = (0x18, 0xC3, 0xC9, 0xE9, 0xDD, 0xFD, 0xED)
+OPLIKE = ENDLIKE + (0x45, 0x4D, 0x10, 0x20, 0x28, 0x30, 0x38, 0xC2, 0xCA, 0xCD, 0xC4, 0xCB, 0x21, 0x01, 0x3E, 0x36, 0xCF, 0xC7, 0xFF, 0x76)
+# 2-4 byte instructions that neither write memory nor change the flow (None: an operand byte)
+MULTI = ([0x3E, None], [0x06, None], [0x0E, None], [0xC6, None], [0xE6, None], [0xFE, None], [0xCB, 0x27], [0xED, 0x44], [0xCB, 0x47],
+         [0x21, None, None], [0x11, None, None], [0x01, None, None], [0x3A, None, None], [0x2A, None, None], [0xDD, 0x7E, None],
+         [0xFD, 0x46, None], [0xDD, 0x21, None, None], [0xFD, 0x21, None, None], [0xED, 0x4B, None, None], [0xED, 0x5B, None, None],
+         [0xDD, 0xCB, None, 0x46], [0xDD, 0x2A, None, None], [0xFD, 0xCB, None, 0x7E])
+
+
+def rst_config_text(cfg):
+    """{RST address: argument bytes (1|2)} -> value of RSTHandlerConfig"""
+    return ','.join('%d:%s' % (n, 'BW'[k - 1]) for n, k in sorted(cfg.items()))
+
+
+def rst_config_of(text):
+    """RSTHandlerConfig as documented: addr:B / addr:W, anything else is ignored"""
+    cfg = {}
+    for spec in text.split(','):
+        a, sep, p = spec.partition(':')
+        if sep and a.strip().isdigit() and int(a) in range(0, 64, 8) and p in ('B', 'W'):
+            cfg[int(a)] = 1 + 'BW'.index(p)
+    return cfg
+
+
+def gen_rst_program(rnd, org, prog):
+    """A program whose RST routines (prog: {RST address: number of inline argument bytes}) step over the bytes that follow
+    the RST instruction.  The argument values come mostly from ENDLIKE/OPLIKE and are followed mostly by a 2-4 byte
+    instruction (operands again often opcode-like), so that a walk that does not skip the arguments is out of step with the
+    executed instructions.  Routines called from main (some only conditionally, never in fact), main ends with JR $.
+    -> (bytes, entry offset, [(offset of an RST instruction, its argument bytes)])"""
+    sites = []
+
+    def operand():
+        return rnd.choice(OPLIKE) if rnd.random() < 0.5 else rnd.randrange(256)
+
+    def multi():
+        return [operand() if b is None else b for b in rnd.choice(MULTI)]
+
+    def rst_item(code):
+        n = rnd.choice(sorted(prog))
+        k = prog[n]
+        r = rnd.random()
+        if k == 1:
+            args = [rnd.choice(ENDLIKE) if r < 0.8 else rnd.choice(OPLIKE) if r < 0.9 else rnd.randrange(256)]
+        elif r < 0.3:
+            args = list(rnd.choice(((0xDD, 0xE9), (0xFD, 0xE9), (0xED, 0x45), (0xED, 0x4D))))
+        elif r < 0.55:
+            args = [rnd.choice((0x18, 0xC3)), rnd.choice(OPLIKE)]
+        elif r < 0.85:
+            args = [rnd.choice(OPLIKE), rnd.choice(ENDLIKE)]
+        else:
+            args = [rnd.randrange(256), rnd.randrange(256)]
+        sites.append((code, len(code), args))
+        code += [0xC7 + n] + args
+        if args[-1] == 0xED and rnd.random() < 0.7:
+            code += [rnd.choice((0x45, 0x4D))]          # LD B,L / LD C,L: RETN / RETI after an ED that was not skipped
+        if rnd.random() < 0.85:
+            code += multi()
+        # (else whatever comes next: a one-byte instruction, another RST, the RET)
+
+    def body(code, k):
+        for _ in range(k):
+            r = rnd.random()
+            if r < 0.55:
+                rst_item(code)
+            elif r < 0.65 and len(prog) < 8:
+                sites.append((code, len(code), []))
+                code += [0xC7 + rnd.choice([n for n in range(0, 64, 8) if n not in prog])]       # an RST without arguments
+            elif r < 0.8:
+                code += multi()
+            else:
+                code += rnd.choice(SAFE)
+
+    routines = []
+    for i in range(rnd.randrange(2, 6)):
+        code = []
+        body(code, rnd.randrange(1, 5))
+        routines.append({'code': code, 'ret': rnd.random() < 0.9, 'executed': rnd.random() < 0.75, 'gap': []})
+        if rnd.random() < 0.3:
+            routines[-1]['gap'] = [rnd.choice(OPLIKE + (0, 0, 65, 66)) for _ in range(rnd.randrange(1, 5))]
+    routines[-1]['ret'] = True
+    main_first = rnd.random() < 0.5
+    calls = []           # position of the address in main, routine
+    main = []
+    for i, r in enumerate(routines):
+        if rnd.random() < 0.5:
+            body(main, rnd.randrange(1, 3))
+        if rnd.random() < 0.2:
+            skip = [rnd.choice(OPLIKE) for _ in range(rnd.randrange(1, 5))]
+            main += [0xAF, 0x28, len(skip)] + skip          # XOR A ; JR Z over bytes that are never executed
+        if r['executed']:
+            main += [0xCD, 0, 0]
+        else:
+            main += [0xAF, rnd.choice((0xC4, 0xC2)), 0, 0]  # XOR A ; CALL NZ / JP NZ: never taken
+        calls.append((len(main) - 2, i))
+    if rnd.random() < 0.5:
+        body(main, rnd.randrange(1, 3))
+    main += [0x18, 0xFE]
+    pos = org + (len(main) if main_first else 0)
+    code = []
+    for r in routines:
+        r['addr'] = pos + len(code)
+        for lst, off, args in sites:
+            if lst is r['code']:
+                r.setdefault('sites', []).append((len(code) + off, args))
+        code += r['code'] + ([0xC9] if r['ret'] else []) + r['gap']
+    for p, i in calls:
+        main[p:p + 2] = [routines[i]['addr'] & 255, routines[i]['addr'] >> 8]
+    moff, coff = (0, len(main)) if main_first else (len(code), 0)
+    out_sites = [(moff + off, args) for lst, off, args in sites if lst is main]
+    for r in routines:
+        out_sites += [(coff + off, args) for off, args in r.get('sites', ())]
+    return (main + code, 0, out_sites) if main_first else (code + main, len(code), out_sites)
+
+
+def exec_trace_rst(full, start, end, entry, prog, steps=3000):
+    """Addresses in [start, end) executed by the real (Python) simulator from entry, with the RST routines of the program
+    (EX (SP),HL ; INC HL x argument bytes ; EX (SP),HL ; RET - outside the image, below 64) in the simulator's memory."""
+    from skoolkit.simulator import Simulator
+    m = list(full)
+    for n in range(0, 64, 8):
+        m[n:n + 8] = ([0xE3] + [0x23] * prog[n] + [0xE3, 0xC9] + [0] * 8)[:8] if n in prog else [0xC9] + [0] * 7
+    sim = Simulator(m, {'SP': 0xFF00, 'PC': entry})
+    pcs = set()
+    pc = entry
+    for _ in range(steps):
+        if start <= pc < end:
+            pcs.add(pc)
+        elif pc >= 64:
+            break
+        try:
+            sim.run(pc)
+        except Exception:
+            break
+        if sim.registers[24] == pc:
+            break            # JR $
+        pc = sim.registers[24]
+    return sorted(pcs)
+
+
+def is_end_at(mem, p):
+    """(is a jump/return, length) of the instruction a decoder sees at offset p of mem"""
+    b = (list(mem[p:p + 2]) + [0, 0])[:2]
+    if b[0] in (0x18, 0xC3, 0xC9, 0xE9):
+        return True, {0x18: 2, 0xC3: 3}.get(b[0], 1)
+    if (b[0] in (0xDD, 0xFD) and b[1] == 0xE9) or (b[0] == 0xED and b[1] in (0x45, 0x4D)):
+        return True, 2
+    return False, 0
+
+
+def rst_cases(args):
+    """sna2ctl runs on RST-argument programs: with / without -m (every map format), with / without -r, RSTHandlerConfig equal
+    to what the program does (from skoolkit.ini in the working directory, or the default 8:B), or something else."""
+    seed, n_cases, wd = args
+    from ..lib import cbuild
+    cbuild.repo_only()
+    rnd = random.Random(seed)
+    sub = os.path.join(wd, 'r%d' % seed)
+    os.makedirs(sub, exist_ok=True)
+    signal.signal(signal.SIGVTALRM, _alarm)
+    out = []
+    for k in range(n_cases):
+        org = rnd.choice((0x8000, 40000, 0x6000, 0xC000))
+        if rnd.random() < 0.4:
+            prog = {8: 1}
+        else:
+            prog = {n: rnd.choice((1, 2)) for n in rnd.sample(range(0, 64, 8), rnd.randrange(1, 4))}
+        mem, eoff, sites = gen_rst_program(rnd, org, prog)
+        size = len(mem)
+        full = [0] * 65536
+        full[org:org + size] = mem
+        start, end = org, org + size
+        binf = os.path.join(sub, 'i%d.bin' % k)
+        open(binf, 'wb').write(bytes(mem))
+        args_ = ['-o', str(org), '-s', str(start), '-e', str(end)]
+        mapaddrs, fmt = [], ''
+        if rnd.random() < 0.85:
+            mapaddrs = exec_trace_rst(full, start, end, org + eoff, prog)
+            fmt = rnd.choice(('z80', 'specemu', 'rzxplay', 'fuse', 'spud'))
+            mapf = os.path.join(sub, 'm%d.map' % k)
+            write_map(mapf, fmt, mapaddrs)
+            args_ += ['-m', mapf]
+        rstcfg = ''             # no skoolkit.ini: RSTHandlerConfig=8:B
+        if rnd.random() < 0.75:
+            args_.append(rnd.choice(('-r', '-r', '--handle-rst')))
+            r = rnd.random()
+            if r < 0.8:
+                if prog != {8: 1} or rnd.random() < 0.5:
+                    rstcfg = rst_config_text(prog)
+            elif r < 0.9:
+                rstcfg = rst_config_text({n: rnd.choice((1, 2)) for n in rnd.sample(range(0, 64, 8), rnd.randrange(1, 4))})
+        elif rnd.random() < 0.3:
+            rstcfg = rst_config_text(prog)     # configured but not switched on
+        if rnd.random() < 0.2:
+            args_.append('-h' if rnd.random() < 0.6 else '-l')
+        if rnd.random() < 0.25:
+            args_.append('-C')
+        c = drive_out(sub, k, binf, args_, 1, start, end, mapaddrs, fmt, full, 'rst', org, mem, rstcfg)
+        rst_stats(c, sites, prog)
+        out.append(c)
+    return out
+
+
+def rst_stats(c, sites, prog):
+    """What of the interesting input class the case has (for the vacuity guard and the violation key)"""
+    handled = rst_config_of(c['rstcfg'] or '8:B') if ('-r' in c['args'] or '--handle-rst' in c['args']) else {}
+    mem, org, mp = c['image'], c['org'], set(c['map'])
+    c['rst_sites'] = c['rst_handled'] = c['rst_oplike'] = c['rst_endlike'] = c['rst_sharp'] = c['rst_undeclared'] = 0
+    for off, sargs in sites:
+        n = mem[off] - 0xC7
+        if org + off not in mp:
+            continue
+        if sargs:
+            c['rst_sites'] += 1
+        if handled.get(n, 0) != len(sargs):
+            c['rst_undeclared'] += 1    # executed, and what follows it is not what sna2ctl is told (no -r, another RSTHandlerConfig)
+            continue
+        if not sargs:
+            continue
+        c['rst_handled'] += 1           # executed, its arguments are what -r is told they are
+        if any(b in OPLIKE for b in sargs):
+            c['rst_oplike'] += 1
+        # a walk that starts at the first argument byte instead of skipping the arguments
+        memx = list(mem) + [0] * 4
+        p, nxt, e = off + 1, off + 1 + len(sargs), False
+        while p < nxt and not e:
+            e = is_end_at(mem, p)[0]
+            p += z80len.length(memx, p)
+        if e:
+            c['rst_endlike'] += 1       # .. finds a jump/return in them ..
+            q = nxt
+            while q < p and org + q in mp:
+                q += z80len.length(memx, q)
+            if q > p:
+                c['rst_sharp'] += 1     # .. that ends inside an executed instruction after the arguments
+
+
+def drive_out(sub, k, binf, args_, strict, start, end, mapaddrs, mapfmt, full, kind, org, mem, rstcfg=''):
     """sna2ctl on the image file binf with args_, then sna2skool + skool2bin on its output -> CtlCases record.  `image`, `org`,
-    `map`, `mapfmt`, `args` (apart from the path after -m) are the whole input: --replay."""
+    `map`, `mapfmt`, `args` (apart from the path after -m), `rstcfg` are the whole input: --replay.
+    rstcfg: RSTHandlerConfig ('' = none given); it can only be given in skoolkit.ini of the working directory, which the real
+    code reads once per process (components.SK_CONFIG): the tools run in a directory of their own with that file, and the cached
+    configuration is dropped before and after."""
+    if not rstcfg:
+        return _drive_out(sub, k, binf, args_, strict, start, end, mapaddrs, mapfmt, full, kind, org, mem, rstcfg)
+    from skoolkit import components
+    if not hasattr(components, 'SK_CONFIG'):
+        from ..lib.common import MachineryError
+        raise MachineryError('skoolkit.components has no SK_CONFIG any more: cannot give RSTHandlerConfig per run')
+    cwd = os.getcwd()
+    d = os.path.join(sub, 'cfg%d' % k)
+    os.makedirs(d, exist_ok=True)
+    with open(os.path.join(d, 'skoolkit.ini'), 'w') as f:
+        f.write('[skoolkit]\nRSTHandlerConfig=%s\n' % rstcfg)
+    try:
+        os.chdir(d)
+        components.SK_CONFIG = None
+        return _drive_out(sub, k, binf, args_, strict, start, end, mapaddrs, mapfmt, full, kind, org, mem, rstcfg)
+    finally:
+        os.chdir(cwd)
+        components.SK_CONFIG = None
+
+
+def _drive_out(sub, k, binf, args_, strict, start, end, mapaddrs, mapfmt, full, kind, org, mem, rstcfg):
     from skoolkit import sna2ctl, sna2skool, skool2bin
     c = {'kind': 'out', 'strict': strict, 'start': start, 'end': end, 'dirs': [], 'subs': [], 'map': mapaddrs, 'iaddr': [], 'warn': 0,
          'timeout': 0, 'err': '', 'skoolerr': '', 'mem': full[start:end], 'ignored': [], 'binstart': 0, 'bin': [],
-         'stmts': [], 'args': args_, 'image_kind': kind, 'org': org, 'image': mem, 'mapfmt': mapfmt}
+         'stmts': [], 'args': args_, 'image_kind': kind, 'org': org, 'image': mem, 'mapfmt': mapfmt, 'rstcfg': rstcfg}
     signal.setitimer(signal.ITIMER_VIRTUAL, 20)
     try:
         ctl, err, rc = pipedrv.run_tool(sna2ctl.main, args_ + [binf])
@@ -334,10 +615,10 @@ def drive_out(sub, k, binf, args_, strict, start, end, mapaddrs, mapfmt, full, k
         if m:
             a = m.group(2)
             a = int(a[1:], 16) if a.startswith('$') else int(a)
-            if m.group(1).islower():
-                c['dirs'].append([m.group(1), a])
-            elif m.group(1) in 'BCSTW':
+            if m.group(1) in 'BCSTW':
                 c['subs'].append(a)
+            elif m.group(1) not in 'DEMNRL':
+                c['dirs'].append([m.group(1), a])        # (a letter that is no directive at all is judged as a block directive)
     # feed it to sna2skool and on to skool2bin (the C01 guarantee for the generated file)
     ctlf = os.path.join(sub, 'g%d.ctl' % k)
     open(ctlf, 'w').write(ctl)
@@ -385,4 +666,7 @@ def out_replay(wd, rp, mapfmt):
         args_[args_.index('-m') + 1] = mapf
     full = [0] * 65536
     full[org:org + len(mem)] = mem
-    return drive_out(wd, 0, binf, args_, rp['strict'], rp['start'], rp['end'], list(rp['map']), mapfmt, full, rp.get('image_kind', '?'), org, mem)
+    c = drive_out(wd, 0, binf, args_, rp['strict'], rp['start'], rp['end'], list(rp['map']), mapfmt, full, rp.get('image_kind', '?'), org, mem,
+                  rp.get('rstcfg', ''))
+    c.update({k: v for k, v in rp.items() if k.startswith('rst_')})         # (what the input is, see rst_stats)
+    return c
